@@ -1,5 +1,5 @@
 """C01 -- stripping removes exactly the escape sequences and nothing else."""
-from .. import gen
+from .. import core, gen
 from ..runner import Prop
 
 
@@ -69,8 +69,40 @@ class C01(Prop):
             lines.append("sbcat " + h)
         yield "malformed-utf8", lines
 
+        # the incremental adapters and the never-colour stream, fed chunk by chunk
+        lines = []
+        for i in range(n):
+            s = gen.grammar_stream(rng, pieces=rng.choice([2, 4, 8]))
+            if rng.randrange(3) == 0:
+                s = s + gen.malformed_utf8(rng) + gen.utf8_text(rng, 4) + gen.csi(rng) + gen.utf8_text(rng, 3)
+            if not s:
+                continue
+            h = gen.hexs(s)
+            for cuts in (gen.random_cuts(rng, len(s)), list(range(1, len(s))) if len(s) < 40 else gen.random_cuts(rng, len(s))):
+                c = ",".join(map(str, cuts)) if cuts else "-"
+                lines.append("sbccat %s %s" % (h, c))
+                chunks = gen.apply_cuts(s, cuts)
+                lines.append("strm never vec - " + ",".join("a:" + gen.hexs(ch) for ch in chunks))
+        yield "incremental-and-never-stream", lines
+
+    def observe(self, ctx, name, lines, results):
+        """a never-colour stream fed by write_all delivers exactly Spec/Strip of the whole input"""
+        if name != "incremental-and-never-stream":
+            return []
+        idx = [i for i, l in enumerate(lines) if l.startswith("strm ")]
+        datas = ["".join("" if op[2:] == "-" else op[2:] for op in lines[i].split(" ")[4].split(",")) or "-" for i in idx]
+        spec = core.run_parallel([ctx["driver"], "spec"], ["sbcat " + d for d in datas], "C01n")
+        out = []
+        for label, _ in ctx["impls"]:
+            for j, i in enumerate(idx):
+                got = results["impl-" + label][i].split(" | ")[1]
+                if got != spec[j] and len(out) < 5:
+                    out.append({"stream": name, "case": lines[i], "build": label, "impl": results["impl-" + label][i],
+                                "spec": "delivered = " + spec[j], "model": results["model"][i]})
+        return out
+
     def nontrivial(self, line, impl):
         parts = line.split(" ")
-        if parts[0] in ("sbcat", "sscat"):
+        if parts[0] in ("sbcat", "sscat", "sbccat"):
             return impl != parts[1]
         return False
